@@ -539,13 +539,14 @@ _api = [H("core_units", "api::" + n, t, timeout=to, mem=12, mode="nomem", doc=d)
     ("keyid_sid_44", "t", 1800, "KeyId<Secret>"), ("keyid_pid_44", "t", 1800, "KeyId<Public>"),
     ("key_fromstr_is_keytext_then_decode", "qt", 900, "Key::from_str = KeyText::from_str then V::decode on exactly the decoded bytes (header fixed, 4-char symbolic tail)"),
     ("keyid_roundtrip_eq_ord_hash", "t", 1800, "KeyId: FromStr(Display(id)) == id; Eq/Ord/Hash agree with the 33 bytes"),
-    ("token_concrete_dot_shapes", "qt", 900, "concrete companion: 12 fixed token strings with different dot structures (trailing dots, extra segments, empty payload) are accepted/rejected and re-serialised as specified, real memchr"),
+    ("token_shape_plain", "t", 600, "concrete companion: v4.local.AAAA accepted and re-serialised"), 
+    ("token_shape_footer", "t", 600, "concrete: payload.footer"), ("token_shape_two_trailing_dots", "qt", 600, "concrete: payload.. rejected"),
+    ("token_shape_footer_trailing_dot", "qt", 600, "concrete: payload.footer. rejected"), ("token_shape_three_segments", "t", 600, "concrete: three segments rejected"),
+
     ("token_p2_nodot", "qt", 900, "SealedToken: 'v4.local.' + every 2-byte tail without '.': accepted iff canonical base64url; Display round trip"),
-    ("token_p2_dot_f0", "t", 2400, "SealedToken 2-char payload + trailing '.': Display drops it"),
     ("token_p2_dot_f1", "qt", 900, "SealedToken 2-char payload, '.', one arbitrary byte (a 1-char footer is never valid, a second '.' is rejected)"),
     ("token_p4_nodot", "t", 1500, "SealedToken: 'v4.local.' + every 4-byte tail without '.', accepted iff canonical base64url; Display round trip"),
     ("token_p3_nodot", "t", 900, "SealedToken, 3-char payload"), ("token_p0_nodot", "t", 600, "SealedToken, empty payload"),
-    ("token_p4_dot_f0", "t", 1800, "SealedToken with trailing '.': Display drops it"),
     ("token_p4_dot_f2", "t", 900, "SealedToken payload.footer; a second '.' in the footer segment is rejected"),
     ("token_p3_dot_f3", "t", 900, "SealedToken 3-char payload, 3-char footer"),
     ("token_p0_dot_f4", "t", 900, "SealedToken empty payload, 4-char footer"),
@@ -653,7 +654,7 @@ for _h in PROPS["C04"].harnesses + PROPS["C09"].harnesses:
         n = _h.name
         keep = ("l0_" in n or any(n.endswith(x) for x in ("strict_n0", "strict_n2", "strict_n3", "strict_n4", "strict_n5", "strict_n6", "small_dst", "roundtrip_empty",
                 "roundtrip_n1", "roundtrip_n2", "roundtrip_n3", "roundtrip_n4", "agrees_n2", "agrees_n3", "keytext_local_t0", "keytext_local_t2", "keytext_local_t3",
-                "pie_local_t2", "pw_local_t2", "seal_t2", "token_concrete_dot_shapes", "token_p2_nodot", "token_p2_dot_f1", "key_fromstr_is_keytext_then_decode", "l3_unseal_exact_p3_f0_a0",
+                "pie_local_t2", "pw_local_t2", "seal_t2", "token_shape_two_trailing_dots", "token_shape_footer_trailing_dot", "token_p2_nodot", "token_p2_dot_f1", "key_fromstr_is_keytext_then_decode", "l3_unseal_exact_p3_f0_a0",
                 "seal_hdr_t0", "token_hdr_p0_nodot")))
         if not keep:
             _h.tiers = "t"
